@@ -47,6 +47,12 @@ pub enum Kind {
     DecodePk,
     DecodeSig,
     DecodeSk,
+    /// split under a pinned generator, recombine key and public key, shares verify each other's partial signatures
+    Split,
+    /// component-wise sum of two reference made ElGamal ciphertexts decrypts to the sum
+    ElGamalSum,
+    /// decryption keys recombined from shares (signcryption and ElGamal) open reference made ciphertexts
+    DecryptionKeysFromShares,
 }
 
 #[derive(Copy, Clone, Debug, PartialEq, Eq, Hash, Serialize, Deserialize)]
@@ -85,6 +91,9 @@ fn all_kinds() -> Vec<Kind> {
         Kind::DecodePk,
         Kind::DecodeSig,
         Kind::DecodeSk,
+        Kind::Split,
+        Kind::ElGamalSum,
+        Kind::DecryptionKeysFromShares,
     ]);
     v
 }
@@ -100,13 +109,13 @@ fn own_kinds(prop: &str) -> Vec<Kind> {
         "C05" => vec![Kind::PopAsSigRejected, Kind::SigOverPkAsPopRejected],
         "C06" => vec![Kind::AggVerify],
         "C07" => vec![Kind::MultiVerify],
-        "C08" => vec![Kind::CombineShares, Kind::PartialSign],
+        "C08" => vec![Kind::CombineShares, Kind::PartialSign, Kind::Split],
         "C09" => vec![Kind::Pop, Kind::PopVerify, Kind::SigOverPkAsPopRejected],
         "C10" => vec![Kind::PokVerify, Kind::PokTsVerify],
         "C11" => vec![Kind::SignCryptSeal, Kind::SignCryptOpen],
-        "C12" => vec![Kind::ShareOtherCiphertext],
+        "C12" => vec![Kind::ShareOtherCiphertext, Kind::DecryptionKeysFromShares],
         "C13" => [per_scheme(Kind::TimeLockSeal), vec![Kind::TimeLockOpen]].concat(),
-        "C14" => vec![Kind::ElGamalVerify, Kind::ElGamalSeal],
+        "C14" => vec![Kind::ElGamalVerify, Kind::ElGamalSeal, Kind::ElGamalSum, Kind::DecryptionKeysFromShares],
         "C15" => vec![Kind::DecodePk, Kind::DecodeSig, Kind::DecodeSk],
         _ => vec![],
     }
@@ -296,6 +305,47 @@ fn run<C: Suite>(kind: Kind, seed: u64) -> Result<(), String> {
             let (c1, c2) = (<C::R as RefSuite>::pk_from(&pt(&p.ciphertext.c1)).ok_or("c1")?, <C::R as RefSuite>::pk_from(&pt(&p.ciphertext.c2)).ok_or("c2")?);
             ensure(rf::elgamal_verify::<C::R>(&rpk, &c1, &c2, &r(&p.message_proof), &r(&p.blinder_proof), &r(&p.challenge)), "the reference rejects the library's proof")
         }
+        Kind::Split => {
+            use rand_core::SeedableRng;
+            let shares = sk.split_with_rng(3, 5, rand_chacha::ChaCha20Rng::from_seed(data32(seed, "fresh-split"))).map_err(|e| e.to_string())?;
+            ensure(shares.len() == 5, "not 5 shares")?;
+            ensure(SecretKey::<C>::combine(&shares[1..4]).map_err(|e| e.to_string())? == sk, "three shares do not recombine to the key")?;
+            ensure(SecretKey::<C>::combine(&shares[..2]).map(|k| k != sk).unwrap_or(true), "two of three shares give the key")?;
+            let pks: Vec<PublicKeyShare<C>> = shares.iter().map(|s| s.public_key().unwrap()).collect();
+            ensure(PublicKey::<C>::from_shares(&pks[2..]).map_err(|e| e.to_string())? == pk, "public key shares do not recombine")?;
+            let part = shares[4].sign(SignatureSchemes::ProofOfPossession, MSG).map_err(|e| e.to_string())?;
+            ensure(pks[4].verify(&part, MSG).is_ok() && pks[3].verify(&part, MSG).is_err(), "partial signature verifies for the wrong key share (or not for its own)")
+        }
+        Kind::ElGamalSum => {
+            let l = |x: &rf::RScalar| sc_from_be::<C>(&rf::scalar_to_be(x));
+            let (m1, m2) = (rf::hash_to_scalar(b"fresh m1", rf::KEYGEN_SALT), rf::hash_to_scalar(b"fresh m2", rf::KEYGEN_SALT));
+            let mk = |m: &rf::RScalar, tag: &[u8]| {
+                let (c1, c2, _, _, _) = rf::elgamal_prove::<C::R>(&rpk, m, &rf::hash_to_scalar(tag, rf::SALT_ELGAMAL), &rf::hash_to_scalar(b"r", rf::SALT_ELGAMAL));
+                ElGamalCiphertext::<C> { c1: lpk::<C>(&c1), c2: lpk::<C>(&c2) }
+            };
+            let (a, b) = (mk(&m1, b"b1"), mk(&m2, b"b2"));
+            let _ = l;
+            let want = rf::enc(&(rf::elgamal_generator::<C::R>() * (m1 + m2)));
+            ensure(pt(&(a + b).decrypt(&sk)) == want, "the sum of two ciphertexts does not decrypt to the sum")?;
+            ensure(pt(&a.decrypt(&sk)) == rf::enc(&(rf::elgamal_generator::<C::R>() * m1)), "a ciphertext does not decrypt to its plaintext point")
+        }
+        Kind::DecryptionKeysFromShares => {
+            let c = rf::hash_to_scalar(b"fresh coefficient", rf::KEYGEN_SALT);
+            let shares: Vec<SecretKeyShare<C>> = (1u8..=2)
+                .map(|i| SecretKeyShare::<C>(<C as Pairing>::SecretKeyShare::from_field_element(i, sc_from_be::<C>(&rf::scalar_to_be(&(rsk + c * rf::RScalar::from(i as u64))))).unwrap()))
+                .collect();
+            let w = rf::signcrypt_seal::<C::R>(&rpk, MSG, Scheme::Aug, &data32(seed, "fresh-keys-sc"));
+            let ct = SignCryptCiphertext::<C> { u: lpk::<C>(&w.u), v: w.v.clone(), w: lsg::<C>(&w.w), scheme: SignatureSchemes::MessageAugmentation };
+            let ds: Vec<SignDecryptionShare<C>> = shares.iter().map(|s| ct.create_decryption_share(s).unwrap()).collect();
+            let key = SignCryptDecryptionKey::<C>::from_shares(&ds).map_err(|e| e.to_string())?;
+            ensure(Option::<Vec<u8>>::from(key.decrypt(&ct)).as_deref() == Some(MSG), "the combined decryption key does not open the ciphertext")?;
+            let m = rf::hash_to_scalar(b"fresh plaintext", rf::KEYGEN_SALT);
+            let (c1, c2, _, _, _) = rf::elgamal_prove::<C::R>(&rpk, &m, &rf::hash_to_scalar(b"fresh b", rf::SALT_ELGAMAL), &rf::hash_to_scalar(b"fresh r", rf::SALT_ELGAMAL));
+            let eg = ElGamalCiphertext::<C> { c1: lpk::<C>(&c1), c2: lpk::<C>(&c2) };
+            let es: Vec<ElGamalDecryptionShare<C>> = shares.iter().map(|s| ElGamalDecryptionShare(<C as BlsSignatureCore>::public_key_share_with_generator(&s.0, eg.c1).unwrap())).collect();
+            let ek = ElGamalDecryptionKey::<C>::from_shares(&es).map_err(|e| e.to_string())?;
+            ensure(pt(&ek.decrypt(&eg)) == rf::enc(&(rf::elgamal_generator::<C::R>() * m)), "the combined ElGamal decryption key decrypts to another point")
+        }
         Kind::DecodePk => {
             let a = PublicKey::<C>::try_from(pkb.as_slice()).map_err(|e| format!("valid public key bytes refused: {}", e))?;
             let b = PublicKey::<C>::try_from(pkb.clone()).map_err(|e| format!("valid public key Vec refused: {}", e))?;
@@ -356,8 +406,9 @@ impl MFresh {
                 ops.push(FOp { g, kind });
             }
         }
-        let _ = tier;
-        MFresh { prop, seed, ops, own, depth: 2 }
+        // a third step, over this property's own operations only (quick: when there are at most 8 of them)
+        let depth = if tier.thorough() || own.len() <= 8 { 3 } else { 2 };
+        MFresh { prop, seed, ops, own, depth }
     }
     pub fn applicable(prop: &str) -> bool {
         !own_kinds(prop).is_empty()
@@ -374,14 +425,14 @@ impl Model for MFresh {
         vec![vec![]]
     }
     fn actions(&self, st: &Vec<usize>) -> Vec<usize> {
-        if st.len() >= self.depth {
-            return vec![];
-        }
-        // the last operation of a judged history belongs to this property; every operation may come first
-        if st.len() + 1 == self.depth {
-            self.own.clone()
-        } else {
-            (0..self.ops.len()).collect()
+        match st.len() {
+            // every operation may come first
+            0 => (0..self.ops.len()).collect(),
+            // the last operation of a judged history belongs to this property
+            1 => self.own.clone(),
+            // a third step only behind two operations of this property
+            2 if self.depth >= 3 && self.own.contains(&st[0]) => self.own.clone(),
+            _ => vec![],
         }
     }
     fn step(&self, st: &Vec<usize>, a: &usize) -> Option<Vec<usize>> {
@@ -403,17 +454,26 @@ impl Model for MFresh {
         }
         o.nontrivial = true;
         let ops: Vec<FOp> = st.iter().map(|i| self.ops[*i]).collect();
-        let exe = match std::env::current_exe() {
-            Ok(e) => e,
-            Err(e) => {
-                o.note(format!("cannot locate the own binary: {}", e));
-                return;
+        // the running image itself (also when the file on disk was replaced by a rebuild in the meantime)
+        let exe = if std::path::Path::new("/proc/self/exe").exists() {
+            std::path::PathBuf::from("/proc/self/exe")
+        } else {
+            match std::env::current_exe() {
+                Ok(e) => e,
+                Err(e) => {
+                    o.note(format!("cannot locate the own binary: {}", e));
+                    return;
+                }
             }
         };
         let out = std::process::Command::new(exe).arg("child").arg("fresh").arg(self.seed.to_string()).arg(serde_json::to_string(&ops).unwrap()).output();
         o.calls(ops.len() as u64);
         let lk = self.ops[*last];
-        let after = if st.len() >= 2 { format!("after-{:?}-{}", self.ops[st[st.len() - 2]].kind, GROUPS[self.ops[st[st.len() - 2]].g as usize]) } else { "first-in-process".to_string() };
+        let after = if st.len() >= 2 {
+            st[..st.len() - 1].iter().map(|i| format!("after-{:?}-{}", self.ops[*i].kind, GROUPS[self.ops[*i].g as usize])).collect::<Vec<_>>().join(":")
+        } else {
+            "first-in-process".to_string()
+        };
         let key = format!("{}:fresh-process:{:?}:{}:{}", self.prop, lk.kind, GROUPS[lk.g as usize], after);
         match out {
             Err(e) => o.note(format!("cannot start the child process: {}", e)),
@@ -439,7 +499,7 @@ impl Model for MFresh {
 
 pub fn models(prop: &'static str, tier: Tier, seed: u64) -> Vec<Box<dyn DynModel>> {
     if MFresh::applicable(prop) {
-        vec![bounded(MFresh::new(prop, tier, seed), 2)]
+        vec![bounded(MFresh::new(prop, tier, seed), 3)]
     } else {
         vec![]
     }
